@@ -269,6 +269,26 @@ class C09(Check):
     nontrivial_rule = ('distinct inputs; non-trivial = at least three points not all on one line (derive / area / '
                        'caller), a history with at least one add_child and one area read, or a cycle dict')
 
+    # ------------------------------------------------------------------------ constants regenerated from the source
+    def translate(self):
+        """the two size limits below which the hull / area code does not call Qhull: `len(points) <= N` in
+        coords_list_to_hull_coords and in poly_area, read from the working tree with `ast` on every run"""
+        from harness import translate as tr
+        co = 'pagexml/model/coords.py'
+        bd = 'pagexml/model/basic_document_model.py'
+        hull_n = tr.as_int(tr.literal_in(co, 'coords_list_to_hull_coords', 'len(points) <= _N0'))
+        area_n = tr.as_int(tr.literal_in(bd, 'poly_area', 'len(points) <= _N0'))
+        if hull_n < 0 or area_n < 0:
+            raise tr.TranslateError(f'negative size limit: {hull_n}, {area_n}')
+        body = tr.HEADER.format(src=f'{co}: coords_list_to_hull_coords `len(points) <= N`; {bd}: poly_area `len(points) <= N`') + (
+            'namespace Pagexml.Generated.C09\n\n'
+            '/-- coords_list_to_hull_coords: up to this many points are returned as given (no hull computed) -/\n'
+            f'def hullAsGivenMax : Nat := {hull_n}\n\n'
+            '/-- poly_area: up to this many points have area 0 (no hull computed) -/\n'
+            f'def areaZeroMax : Nat := {area_n}\n\n'
+            'end Pagexml.Generated.C09\n')
+        return {'PagexmlModel/Generated/C09.lean': body}
+
     # ------------------------------------------------------------------------ generation
     def _rand_points(self, rng: random.Random, n: int, style: str, mag: int) -> Pts:
         if style == 'lattice':
